@@ -211,7 +211,11 @@ class RydbergLindbladian:
 
     def expect(self, state: DensityMatrix) -> torch.Tensor:
         """Return the energy expectation value E=tr(H𝜌)"""
-        en = (self.h_eff(state.data)).trace()
+        h_rho = self.h_eff(state.data)
+        en = h_rho.trace()
 
-        assert torch.allclose(en.imag, torch.zeros_like(en.imag), atol=1e-8)
+        # 𝜌 is Hermitian only up to the solver tolerance: the imaginary part of the
+        # trace scales with the size of the terms that are summed
+        scale = max(1.0, h_rho.diagonal().abs().sum().item())
+        assert abs(en.imag.item()) <= 1e-8 * scale
         return en.real
